@@ -1,5 +1,7 @@
 import TonicModel.Lemmas.FramingWire
 import TonicModel.Lemmas.RichErrorWire
+import TonicModel.Lemmas.FramingOps
+import TonicModel.Model.FramingBuf
 /-
 C01 — Message streams survive encode/decode unchanged under any chunking.
 Property theorems only; the invariants are in Lemmas/Framing*.lean.
@@ -270,5 +272,153 @@ example :
   intro x hx
   simp only [List.mem_cons, List.not_mem_nil, or_false] at hx
   rcases hx with rfl | rfl | rfl <;> simp [SentOk, wireOf, idCodec, DecCfg.limit, defaultMaxRecv]
+
+/-! ### Audit aC01: the other consumer entry points, and the codec's buffer views (codec/buffer.rs) -/
+
+/-- **Any consumer.**  `C01_decode_any_chunking` for a consumer that mixes `Stream::poll_next` and
+`Streaming::message()` in any order (a fresh `message()` future per call, dropped after a
+`Pending`): call by call it sees what `poll_next` alone would have seen, hence exactly the messages
+and then the end of the stream. -/
+theorem C01_decode_any_chunking_any_consumer (cd : Codec α) (cfg : DecCfg) (hgrpc : cfg.skipsBody = false)
+    (laws : CodecLaws cd) (xs : List (Sent α)) (hxs : ∀ x ∈ xs, SentOk cd cfg x)
+    (evs : List BodyEv) (hclean : CleanEvs evs = true)
+    (hcut : dataOf evs = Spec.Framing.frames (xs.map (wireOf cd cfg.enc)))
+    (hend : EndOk cfg Dec.init evs)
+    (fuel : Nat) (ops : List Op) (hops : ∀ op ∈ ops, op.isPoll = true) (hn : evs.length + xs.length < ops.length) :
+    Dec.runOps cd cfg fuel ops Dec.init evs = (Dec.run cd cfg ops.length Dec.init evs).map .item ∧
+    ∃ k, 1 ≤ k ∧ nonPending (Dec.run cd cfg ops.length Dec.init evs)
+      = (xs.map (fun x => Item.msg x.msg)) ++ List.replicate k .none :=
+  ⟨runOps_polls cd cfg fuel ops Dec.init evs hops,
+   C01_decode_any_chunking cd cfg hgrpc laws xs hxs evs hclean hcut hend ops.length hn⟩
+
+private theorem dbuf_step_spec (d : DBuf) (op : RdOp) (b : Bytes) (d' : DBuf)
+    (h : d.step op = some (b, d')) :
+    ∃ k, k ≤ d.len ∧ k ≤ d.buf.length ∧ b = d.buf.take k ∧ d' = ⟨d.buf.drop k, d.len - k⟩ := by
+  cases op with
+  | chunkAdvance k =>
+    simp only [DBuf.step, DBuf.advance] at h
+    split at h
+    · rename_i hk
+      split at h
+      · rename_i hk2
+        simp only [Option.map_some, Option.some.injEq, Prod.mk.injEq] at h
+        refine ⟨k, hk2.1, hk2.2, ?_, h.2.symm⟩
+        rw [← h.1]
+        unfold DBuf.chunk
+        split
+        · rw [List.take_take, Nat.min_eq_left hk2.1]
+        · rfl
+      · simp at h
+    · simp at h
+  | copyToBytes k =>
+    simp only [DBuf.step, DBuf.copyToBytes] at h
+    split at h
+    · rename_i hk
+      simp only [Option.some.injEq, Prod.mk.injEq] at h
+      exact ⟨k, hk.1, hk.2, h.1.symm, h.2.symm⟩
+    · simp at h
+
+private theorem dbuf_read_spec : ∀ (ops : List RdOp) (d : DBuf) (out : Bytes) (d' : DBuf),
+    DBuf.read ops d = some (out, d') →
+    ∃ k, k ≤ d.len ∧ k ≤ d.buf.length ∧ out = d.buf.take k ∧ d'.buf = d.buf.drop k ∧ d'.len = d.len - k
+  | [], d, out, d', h => by
+    simp only [DBuf.read, Option.some.injEq, Prod.mk.injEq] at h
+    exact ⟨0, Nat.zero_le _, Nat.zero_le _, by simp [← h.1], by simp [← h.2], by simp [← h.2]⟩
+  | op :: ops, d, out, d', h => by
+    simp only [DBuf.read] at h
+    cases hs : d.step op with
+    | none => simp [hs] at h
+    | some r =>
+      obtain ⟨b, d1⟩ := r
+      simp only [hs] at h
+      cases hr : DBuf.read ops d1 with
+      | none => simp [hr] at h
+      | some r2 =>
+        obtain ⟨o2, d2⟩ := r2
+        simp only [hr, Option.map_some, Option.some.injEq, Prod.mk.injEq] at h
+        obtain ⟨k1, hk1, hk1b, hb, hd1⟩ := dbuf_step_spec d op b d1 hs
+        obtain ⟨k2, hk2, hk2b, ho2, hbuf2, hlen2⟩ := dbuf_read_spec ops d1 o2 d2 hr
+        subst hd1
+        dsimp only at hk2 hk2b ho2 hbuf2 hlen2
+        simp only [List.length_drop] at hk2b
+        refine ⟨k1 + k2, by omega, by omega, ?_, ?_, ?_⟩
+        · rw [← h.1, hb, ho2, List.take_add]
+        · rw [← h.2, hbuf2, List.drop_drop]
+        · rw [← h.2, hlen2]; omega
+
+/-- **`DecodeBuf` is exactly the payload window.**  `decode_chunk` hands the message decoder a
+`DecodeBuf` over the stream buffer `buf` with `len` = the frame's declared length (`len ≤
+buf.length`: the `ReadBody` guard).  Whatever the decoder does with the `Buf` API — any read
+program of `chunk`/`advance` steps (which is what `get_u8`, `copy_to_slice`, `take`, … are) and
+`copy_to_bytes` calls — if it does not panic, the bytes it has read are a prefix of the payload
+`buf.take len` (never a byte of the frames behind it), the stream buffer has lost exactly those
+bytes, and a decoder that reads to `remaining() = 0` has read exactly `buf.take len` and leaves
+`buf.drop len`: what `Dec.readBody` passes to `cd.de` and keeps. -/
+theorem C01_decode_buf_is_the_payload_window (ops : List RdOp) (buf : Bytes) (len : Nat)
+    (out : Bytes) (d' : DBuf) (h : DBuf.read ops ⟨buf, len⟩ = some (out, d')) :
+    d'.len ≤ len ∧ out = buf.take (len - d'.len) ∧ d'.buf = buf.drop (len - d'.len) ∧
+    (d'.remaining = 0 → out = buf.take len ∧ d'.buf = buf.drop len) := by
+  obtain ⟨k, hk, _, hout, hbuf, hlen⟩ := dbuf_read_spec ops ⟨buf, len⟩ out d' h
+  simp only at hk hout hbuf hlen
+  have hk' : len - d'.len = k := by omega
+  refine ⟨by omega, by rw [hk']; exact hout, by rw [hk']; exact hbuf, ?_⟩
+  intro h0
+  have : k = len := by simp only [DBuf.remaining] at h0; omega
+  subst this
+  exact ⟨hout, hbuf⟩
+
+/-- …and a decoder that stays inside the window never trips one of `DecodeBuf`'s `assert!`s: a
+read program whose sizes add up to at most `len` (with `len ≤ buf.length`) runs to its end. -/
+theorem C01_decode_buf_no_panic_inside_the_window : ∀ (ops : List RdOp) (buf : Bytes) (len : Nat),
+    len ≤ buf.length → (ops.map RdOp.size).sum ≤ len → (DBuf.read ops ⟨buf, len⟩).isSome = true
+  | [], _, _, _, _ => rfl
+  | op :: ops, buf, len, hlen, hsum => by
+    simp only [List.map_cons, List.sum_cons] at hsum
+    have hk : op.size ≤ len := by omega
+    have hstep : DBuf.step ⟨buf, len⟩ op = some (buf.take op.size, ⟨buf.drop op.size, len - op.size⟩) := by
+      cases op with
+      | chunkAdvance k =>
+        simp only [RdOp.size] at hk
+        have hc : k ≤ (DBuf.chunk ⟨buf, len⟩).length := by
+          unfold DBuf.chunk; split <;> simp <;> omega
+        have hck : (DBuf.chunk ⟨buf, len⟩).take k = buf.take k := by
+          unfold DBuf.chunk; split
+          · rw [List.take_take, Nat.min_eq_left hk]
+          · rfl
+        simp [DBuf.step, DBuf.advance, hc, hk, hck, RdOp.size]
+        omega
+      | copyToBytes k =>
+        simp only [RdOp.size] at hk
+        simp [DBuf.step, DBuf.copyToBytes, hk, RdOp.size]
+        omega
+    have ih := C01_decode_buf_no_panic_inside_the_window ops (buf.drop op.size) (len - op.size)
+      (by simp; omega) (by omega)
+    simp only [DBuf.read, hstep]
+    cases hr : DBuf.read ops ⟨buf.drop op.size, len - op.size⟩ with
+    | none => simp [hr] at ih
+    | some r => simp
+
+private theorem bmPutBuf_eq : ∀ (segs : List Bytes) (buf : Bytes), bmPutBuf buf segs = buf ++ segs.flatten
+  | [], buf => by simp [bmPutBuf]
+  | s :: segs, buf => by simp [bmPutBuf, bmPutSlice, bmPutBuf_eq segs]
+
+/-- **`EncodeBuf` only appends.**  Whatever the message encoder does with the `BufMut` API of its
+`EncodeBuf` — `put_slice`, `put` of any (non-contiguous) `Buf`, `put_bytes`, `chunk_mut` +
+`advance_mut`, `reserve`, in any order — the buffer afterwards is the buffer before (the frames
+already batched and the 5 reserved prefix bytes, untouched) followed by the concatenation of what
+was written: the message's serialization `cd.ser m` that `encodeItem` appends does not depend on
+which calls produced it. -/
+theorem C01_encode_buf_appends : ∀ (ops : List WrOp) (buf : Bytes),
+    writeAll buf ops = buf ++ (ops.map WrOp.bytes).flatten
+  | [], buf => by simp [writeAll]
+  | op :: ops, buf => by
+    rw [writeAll, C01_encode_buf_appends ops]
+    cases op <;> simp [WrOp.apply, WrOp.bytes, bmPutSlice, bmPutBuf_eq]
+
+/- Non-vacuity: two frames in one buffer; a decoder reading the first payload by `chunk`/`advance`
+and `copy_to_bytes` gets bytes 1 2 3 and leaves the second frame; a read past the window panics. -/
+example : DBuf.read [.chunkAdvance 2, .copyToBytes 1] ⟨[1, 2, 3, 0, 0, 0, 0, 1, 9], 3⟩ = some ([1, 2, 3], ⟨[0, 0, 0, 0, 1, 9], 0⟩) := by decide
+example : DBuf.read [.chunkAdvance 4] ⟨[1, 2, 3, 0, 0, 0, 0, 1, 9], 3⟩ = none := by decide
+example : writeAll [0, 0, 0, 0, 0] [.reserve 9, .putBuf [[1], [2, 3]], .putBytes 7 2, .chunkMutAdvance [4]] = [0, 0, 0, 0, 0, 1, 2, 3, 7, 7, 4] := by decide
 
 end C01
